@@ -82,6 +82,7 @@ Inductive op :=
 | OParseDomain (typed : bool) (nacts : nat)
 | ONewDomain
 | OCombine (nacts : nat)
+| OShallowCopy (d : nat)                                (* Domain.shallow_copy: a new domain built from copies *)
 | OParseProblem (d : nat) (keys : list nat)
 | OMkOp (d a : nat) (objs : option nat) (sh : ashape)
 | OGround (o : nat)
@@ -225,6 +226,12 @@ Definition step (c : cfg) (m : mstate) (p : op) : mstate * list event :=
   | OParseDomain typed nacts => ev_new_domain c m typed nacts false
   | ONewDomain => ev_new_domain c m false 0 false
   | OCombine nacts => ev_new_domain c m false nacts true
+  | OShallowCopy d =>
+      (* Domain() then requirements.copy(), {k: v.copy()} for types/constants/predicates/functions, and one fresh
+         Action with signature.copy() per action: reads every container of the source, owns everything it holds *)
+      let di := nth d (doms m) dflt_d in
+      let '(m', evs) := ev_new_domain c m true (d_nacts di) false in
+      (m', map Read (dom_cells d di) ++ evs)
   | OParseProblem d keys =>
       let s := List.length (sts m) in
       let si := fresh_state s 3 keys in
@@ -314,3 +321,8 @@ Definition sharing (m : mstate) : list (owner * owner) :=
 (* separation: every cell reachable from a value lies in that value's own region *)
 Definition separated (m : mstate) : bool :=
   forallb (fun v => forallb (fun l => owner_eqb (fst l) v) (reach m v)) (values m).
+
+(* a recorded schedule (thread, event) over SHARED cells -- cells private to no thread -- respects the thread
+   discipline of the interleaving theorem iff it contains no Write (Proofs/C07_Interleave.v, no_writes_sched_ok) *)
+Definition no_writes (s : list (nat * event)) : bool :=
+  forallb (fun te => match snd te with Write _ => false | _ => true end) s.
